@@ -62,7 +62,11 @@ Print Assumptions C05_subscriptions_reachable.
 
 Example C05_invariant_nonvacuous :
   b_online ex_s1 = [([97], 1)] /\ b_offline ex_s2 = [([97], 1000000100000)] /\ BInv ex_s1 /\ BInv ex_s2.
-Proof. repeat split; try (vm_compute; reflexivity); apply run_inv; try apply run_inv; apply BInv_init. Qed.
+Proof.
+  split; [vm_compute; reflexivity|]. split; [vm_compute; reflexivity|].
+  assert (H1 : BInv ex_s1) by (unfold ex_s1; apply run_inv, BInv_init).
+  split; [exact H1|]. unfold ex_s2. apply run_inv. exact H1.
+Qed.
 
 (* ---------- 2. one connection per client id ---------- *)
 
@@ -133,14 +137,22 @@ Theorem C05_session_alive_def : forall (cid : str) (s : st),
   (exists dl, aget cid (b_offline s) = Some dl /\ b_now s <= dl) \/
   (exists c0 k0 se, aget cid (b_online s) = Some c0 /\ nget c0 (b_conns s) = Some k0 /\
                     aget cid (b_sessions s) = Some se /\ takeover_expiry k0 se (b_cfg s) <> 0).
-Proof. intros cid s. reflexivity. Qed.
+Proof. exact session_alive_def. Qed.
+Print Assumptions C05_session_alive_def.
 
 Theorem C05_takeover_expiry_def : forall (k : conn) (se : session) (cf : cfg),
   takeover_expiry k se cf =
   if (k_v k =? 5) && k_got_disconnect k
   then N.min (match k_disc_sei k with Some x => x | None => se_expiry se end) (c_session_expiry cf)
   else se_expiry se.
-Proof. intros k se cf. reflexivity. Qed.
+Proof. exact takeover_expiry_def. Qed.
+Print Assumptions C05_takeover_expiry_def.
+
+(* `hc_rejected cn s = false` means exactly: the CONNACK has reason code 0 *)
+Theorem C05_connack_success_iff : forall (c : N) (cn : connect) (s : st),
+  hc_rejected cn s = false <-> exists sp props, In (OSend c (KConnack sp 0 props)) (snd (handle_connect c cn s)).
+Proof. exact connack_success_iff. Qed.
+Print Assumptions C05_connack_success_iff.
 
 Theorem C05_resume_iff :
   forall (c : N) (cn : connect) (s : st) (sp : bool) (props : list prop),
@@ -190,7 +202,8 @@ Theorem C05_connect_expiry_def : forall (cn : connect) (cf : cfg),
   connect_expiry cn cf =
   if cn_ver cn =? 5 then match p_sei (cn_props cn) with Some i => N.min i (c_session_expiry cf) | None => 0 end
   else if cn_clean cn then 0 else c_session_expiry cf.
-Proof. intros cn cf. reflexivity. Qed.
+Proof. exact connect_expiry_def. Qed.
+Print Assumptions C05_connect_expiry_def.
 
 Theorem C05_session_expiry_value_connect :
   forall (c : N) (cn : connect) (s : st),
